@@ -51,6 +51,9 @@ structure RecvOut where
   fwd  : List Nat
   err  : RecvErr
   init : Bool
+  /-- The receive side closes the `initialized` channel in its deferred block WHATEVER happened - also when it
+      refuses the stream: the event loop waits on that channel before it starts, a refused stream would hang. -/
+  released : Bool := true
   deriving DecidableEq, Repr
 
 inductive RecvRes
